@@ -33,7 +33,12 @@ TypedefSeq == << Td("td_int", Sc("int"), ""), Td("td_uchar", Sc("uchar"), ""), T
               Td("uint8_t", Sc("uchar"), "u8"), Td("int16_t", Sc("short"), "i16"),
               Td("uint32_t", Sc("uint"), "u32"), Td("int64_t", Sc("long"), "i64"),
               Td("size_t", Sc("ulong"), "usize"), Td("ptrdiff_t", Sc("long"), "isize"),
-              Td("uintptr_t", Sc("ulong"), "usize") >>
+              Td("uintptr_t", Sc("ulong"), "usize"),
+              \* the stdint names whose width is the C library's choice (glibc x86_64: fast16/fast32 are long);
+              \* bindgen keeps them as aliases of what clang says they are
+              Td("int_fast16_t", Sc("long"), ""), Td("uint_fast32_t", Sc("ulong"), ""),
+              Td("int_least16_t", Sc("short"), ""), Td("uint_least8_t", Sc("uchar"), ""),
+              Td("intmax_t", Sc("long"), "") >>
 Typedefs == Range(TypedefSeq)
 
 (* enums: E_s has a negative enumerator (int), E_u none (unsigned int), E_l needs 64 bits *)
